@@ -354,7 +354,7 @@ def _r21ab(chk) -> None:
             for a in sh.node.args[-1:]:
                 accept_value(a, cfg.stmt_of(sh.node))
     chk.count("R21a.error_list_sources", n_sources[0])
-    chk.floor("R21a.error_list_sources", 3)
+    chk.floor("R21a.error_list_sources", 2)
     uniq = {}
     for node, why in problems:
         uniq.setdefault(why, node)
@@ -648,7 +648,7 @@ def _r21c(chk) -> None:
     chk.count("R21c.stores_outside_checked", n_ext)
     chk.count("R21c.stores_on_non_segment_receivers", n_other)
     chk.floor("R21c.stores_in_segment_package", 10)
-    chk.floor("R21c.stores_outside_checked", 5)
+    chk.floor("R21c.stores_outside_checked", 3)
     # in-place mutator calls outside the parser package
     n_mut = 0
     mut_rx = re.compile(r"\.(?:%s)\s*\(" % "|".join(sorted(re.escape(x) for x in mutators)))
@@ -1036,7 +1036,7 @@ def _check_noqa_map(chk, repo) -> None:
                         good = False
                 chk.require(good, "R21d", c, f"noqa directives are interpreted with a map that is not derived from {pack}.reference_map (the map the selection was made with)", detail=f"{last_attr(c)} gets the pack's reference map")
     chk.count("R21d.noqa_mask_constructions", n)
-    chk.floor("R21d.noqa_mask_constructions", 2)
+    chk.floor("R21d.noqa_mask_constructions", 1)
 
 
 # ---------------------------------------------------------------------------
